@@ -3,6 +3,7 @@ package main
 // Symbolic values and memory.
 
 import (
+	"sync/atomic"
 	"os"
 	"runtime/debug"
 	"strings"
@@ -12,6 +13,8 @@ import (
 
 	"golang.org/x/tools/go/ssa"
 )
+
+var ghostMergeCounter int64
 
 type Value interface{}
 
@@ -428,13 +431,31 @@ func mergeVal(c *Term, a, b Value) (Value, bool) {
 			}
 			r.F[i] = v
 		}
-		for k, v := range x.G {
-			if w, ok := y.G[k]; ok {
-				if m, ok := mergeVal(c, v, w); ok {
-					if r.G == nil {
-						r.G = map[string]Value{}
+		// ghost attributes: an attribute present on one side only is unconstrained on the other
+		if len(x.G) > 0 || len(y.G) > 0 {
+			r.G = map[string]Value{}
+			for k, v := range x.G {
+				w, ok := y.G[k]
+				if !ok {
+					if t, isT := v.(*Term); isT {
+						w = Var(fmt.Sprintf("ghostmerge!%d", atomic.AddInt64(&ghostMergeCounter, 1)), t.sort)
+					} else {
+						continue
 					}
+				}
+				if m, ok := mergeVal(c, v, w); ok {
 					r.G[k] = m
+				}
+			}
+			for k, w := range y.G {
+				if _, ok := x.G[k]; ok {
+					continue
+				}
+				if t, isT := w.(*Term); isT {
+					v := Var(fmt.Sprintf("ghostmerge!%d", atomic.AddInt64(&ghostMergeCounter, 1)), t.sort)
+					if m, ok := mergeVal(c, v, w); ok {
+						r.G[k] = m
+					}
 				}
 			}
 		}
